@@ -4,6 +4,7 @@ Require Extraction.
 Require Import ExtrOcamlBasic.
 From Coq Require Import List NArith Strings.String.
 From V Require Import Base.Bytes Base.Res Gen.Tables Model.Escape Spec.EscapeSpec.
+From V Require Import Gen.FeedConst Model.Feed Spec.LineEndings.
 Extraction Language OCaml.
 Set Extraction KeepSingleton.
 
@@ -23,4 +24,21 @@ Extraction "model.ml"
   EscapeSpec.no_pct_hex
   EscapeSpec.lex_start_tag
   EscapeSpec.utf8_valid
+  Feed.feed_lines_res
+  Feed.norm_line
+  Feed.seen_lines
+  Feed.max_ref_size
+  LineEndings.to_crlf
+  LineEndings.to_cr
+  LineEndings.add_final_nl
+  LineEndings.nul_to_fffd
+  LineEndings.prepend_bom
+  LineEndings.no_cr
+  LineEndings.ends_nl
+  LineEndings.has_bom
+  LineEndings.spec_lines
+  LineEndings.clean_line
+  LineEndings.known_bom_on_bom
+  LineEndings.known_above_floor
+  FeedConst.ref_budget_floor
 .
